@@ -42,6 +42,12 @@ def zx_read(mem: Mem, size: str, abs_off: str, n: str, width: int) -> str:
 def sign_extend_from(v: str, n: str, width: int) -> str:
     """two's complement value of the low n bits of v (0 < n <= width), n == 0 -> 0; as BV(width)"""
     # shift left by (width - n) then arithmetic shift right by the same amount
+    if n.isdigit():
+        k = int(n)
+        if k == 0:
+            return bvlit(0, width)
+        amt = bvlit(width - k, width)
+        return f"(bvashr (bvshl {v} {amt}) {amt})"
     amt = f"((_ int2bv {width}) (- {width} {n}))"
     return Ite(Eq(n, "0"), bvlit(0, width), f"(bvashr (bvshl {v} {amt}) {amt})")
 
@@ -202,7 +208,7 @@ def get_bit():
 def get_i(width: int):
     def ensures(cx):
         size, off, ln = cx.i("buf_size_bytes"), cx.i("off_bits"), cx.i("len_bits")
-        n = imin(ln, str(width))
+        n = cx.known(imin(ln, str(width)))  # a literal on paths where the code's case split has fixed it
         u = zx_read(cx.mem("buf"), size, off, n, width)
         return {"result": ("B", sign_extend_from(u, n, width))}
 
